@@ -96,11 +96,15 @@ func c02FixedSchema() *xSchema {
 	pool("fa", xNamed("Int"), xArg{Name: "n", Type: xNamed("Int")})
 	pool("o", xNamed("Q"))
 	pool("if0", xNamed("I0"))
+	pool("fg", xNamed("String"), xArg{Name: "in1", Type: xNamed("In1")})
+	s.Types = append(s.Types,
+		&xType{Name: "In0", Kind: "input", Inputs: []xArg{{Name: "a", Type: xNamed("Int")}, {Name: "b", Type: xNamed("Int")}}},
+		&xType{Name: "In1", Kind: "input", Inputs: []xArg{{Name: "x", Type: xNamed("String")}, {Name: "in", Type: xNamed("In0")}, {Name: "ins", Type: xList(xNamed("In0"))}}})
 	s.Types = append(s.Types,
 		&xType{Name: "I0", Kind: "interface", Fields: []string{"a"}},
 		&xType{Name: "O0", Kind: "object", Fields: []string{"a", "b", "i", "o"}, Ifaces: []string{"I0"}},
 		&xType{Name: "O1", Kind: "object", Fields: []string{"a", "b", "ni", "o"}, Ifaces: []string{"I0"}},
-		&xType{Name: "Q", Kind: "object", Fields: []string{"a", "b", "i", "fa", "o", "if0"}},
+		&xType{Name: "Q", Kind: "object", Fields: []string{"a", "b", "i", "fa", "o", "if0", "fg"}},
 		&xType{Name: "M", Kind: "object", Fields: []string{"a"}})
 	return s
 }
@@ -1198,6 +1202,11 @@ func genC02(tier string, seed uint64, n int, e *Emitter) {
 		"{ o { y: a ...F } o { ...G x: a } } fragment F on Q { ...H } fragment G on Q { y: a } fragment H on Q { x: b }",
 		// input objects: duplicates around and inside nested literals
 		"{ fa(n: 1) }",
+		"{ fg(in1: {x: \"s\", in: {b: 1}, x: \"t\"}) }",
+		"{ fg(in1: {in: {b: 1, b: 2}}) }",
+		"{ fg(in1: {in: {b: 1}, ins: [{b: 1}, {a: 1, b: 1, a: 2}]}) }",
+		"{ fg(in1: {in: {a: 1, b: 2}, x: \"t\", ins: [{b: 1}]}) }",
+		"{ fg(in1: {ins: [{b: 1}], x: \"s\", in: {a: 1}, ins: []}) }",
 	} {
 		c02Emit(e, fixed, q, "corpus", []string{"corpus"})
 	}
